@@ -150,6 +150,9 @@ pub enum Kind {
     Steps { steps: u8 },
     /// explicit small samples (shrinks well)
     Raw { v: Vec<i32> },
+    /// up to 24 partials with short periods (2..64 samples), each with its own slow decay, plus
+    /// `noise` bits of noise: music-like material on which high LPC orders pay off
+    Tonal { partials: u8, amp: u8, noise: u8 },
 }
 
 #[derive(Serialize, Deserialize, Clone, Debug, Hash, PartialEq, Eq)]
@@ -170,6 +173,10 @@ pub struct Recipe {
     pub chans: Vec<ChanRecipe>,
     /// if > 0, switch every channel to the next kind in `chans` (rotated) every `seg` frames
     pub seg: u32,
+    /// if > 0 and there are >= 2 channels: channel 0 and 1 as generated are taken as mid and side,
+    /// the side is scaled down by `ms_mix - 1` bits, and left = mid + side, right = mid - side
+    #[serde(default)]
+    pub ms_mix: u8,
 }
 
 fn clampi(v: i64, bps: u8) -> i32 {
@@ -290,6 +297,24 @@ fn gen_kind(kind: &Kind, bps: u8, n: usize, rng: &mut Rng, out: &mut Vec<i32>) {
                 out.push(if v.is_empty() { 0 } else { clampi(v[i % v.len()] as i64, bps) });
             }
         }
+        Kind::Tonal { partials, amp, noise } => {
+            let a = (1u64 << (*amp as u32).min(full)) as f64 - 1.0;
+            let k = (*partials).clamp(1, 24) as usize;
+            // (period, phase, weight, decay per sample)
+            let ps: Vec<(f64, f64, f64, f64)> =
+                (0..k).map(|_| (2.0 + rng.f() * 62.0, rng.f() * 6.28, 0.2 + rng.f(), 1.0 - rng.f() * 0.002)).collect();
+            let wsum: f64 = ps.iter().map(|p| p.2).sum();
+            let mut env: Vec<f64> = vec![1.0; k];
+            for i in 0..n {
+                let mut s = 0.0;
+                for (j, (p, ph, w, d)) in ps.iter().enumerate() {
+                    s += w * env[j] * (i as f64 * 6.283185307179586 / p + ph).sin();
+                    env[j] *= d;
+                }
+                let v = (s / wsum * a) as i64 + if *noise > 0 { rng.signed((*noise as u32 - 1).min(full)) } else { 0 };
+                out.push(clampi(v, bps));
+            }
+        }
     }
 }
 
@@ -334,6 +359,15 @@ impl Recipe {
                 }
             }
             data.push(ch);
+        }
+        if self.ms_mix > 0 && nch >= 2 {
+            let sh = (self.ms_mix - 1).min(31) as u32;
+            for i in 0..n {
+                let m = data[0][i] as i64;
+                let sd = (data[1][i] as i64) >> sh;
+                data[0][i] = clampi(m + sd, bps);
+                data[1][i] = clampi(m - sd, bps);
+            }
         }
         Pcm { channels: nch as u8, bps, rate: self.rate, data }
     }
@@ -402,11 +436,33 @@ pub fn recipe_strategy(
                 proptest::collection::vec(chan_strategy(bps), nch as usize..=nch as usize),
                 prop_oneof![4 => Just(0u32), 1 => 5u32..200],
             )
-                .prop_map(move |(chans, seg)| Recipe { bps, rate, frames, seed, chans, seg })
+                .prop_map(move |(chans, seg)| Recipe { bps, rate, frames, seed, chans, seg, ms_mix: 0 })
         })
         .boxed()
 }
 
 pub fn channels_strategy() -> BoxedStrategy<u8> {
     prop_oneof![3 => Just(1u8), 4 => Just(2u8), 2 => 3u8..=8, 1 => Just(8u8)].boxed()
+}
+
+/// Music-like material: tonal / resonant channels, common depths, stereo often built from a
+/// tonal mid and a small noisy side so that mid/side coding wins.
+pub fn tonal_recipe_strategy(frames: BoxedStrategy<u32>) -> BoxedStrategy<Recipe> {
+    let bps = prop_oneof![4 => Just(16u8), 3 => Just(24u8), 2 => Just(32u8), 1 => Just(8u8), 1 => Just(12u8), 1 => Just(20u8), 1 => 4u8..=32];
+    let nch = prop_oneof![2 => Just(1u8), 5 => Just(2u8), 1 => 3u8..=8];
+    (bps, nch, rate_strategy(), frames, any::<u64>())
+        .prop_flat_map(|(bps, nch, rate, frames, seed)| {
+            let full = bps - 1;
+            let kind = prop_oneof![
+                5 => (1u8..=24, full.saturating_sub(6)..=full, 0u8..=(bps / 2).max(1)).prop_map(|(partials, amp, noise)| Kind::Tonal { partials, amp, noise }),
+                2 => (1u8..=16, full.saturating_sub(4)..=full).prop_map(|(poles, amp)| Kind::Ar { poles, amp }),
+                1 => (1u8..4, 0..=full, 0u8..4).prop_map(|(n, amp, noise)| Kind::Sines { n, amp, noise }),
+                1 => (0..=full).prop_map(|amp| Kind::Noise { amp }),
+            ];
+            let chan = (kind, prop_oneof![8 => Just(0u8), 1 => 1u8..4], prop_oneof![6 => Just(0u8), 2 => 1u8..4])
+                .prop_map(|(kind, wasted, relation)| ChanRecipe { kind, wasted, relation });
+            (proptest::collection::vec(chan, nch as usize..=nch as usize), prop_oneof![2 => Just(0u8), 3 => 1u8..=12])
+                .prop_map(move |(chans, ms_mix)| Recipe { bps, rate, frames, seed, chans, seg: 0, ms_mix })
+        })
+        .boxed()
 }
